@@ -29,7 +29,65 @@ func (a *An) c09Writers() {
 	a.WhoMayCall("W.mac-history", a.MustFn("(*keyManagementContext).revealMACKeysForTheirPreviousKeyID"), "(*keyManagementContext).rotateTheirKey")
 	a.WhoMayCall("W.mac-history", a.MustFn("(*macKeyHistory).forgetMACKeysForOurKey"), "(*keyManagementContext).revealMACKeysForOurPreviousKeyID")
 	a.WhoMayCall("W.mac-history", a.MustFn("(*macKeyHistory).forgetMACKeysForTheirKey"), "(*keyManagementContext).revealMACKeysForTheirPreviousKeyID")
-	a.R.Floor("W.mac-history", 5)
+	// records leave the history only through the two retire functions (which queue them for disclosure) and the wipes
+	a.WhoMayCall("W.mac-history", a.MustFn("(*macKeyHistory).deleteKeysAt"), "(*macKeyHistory).forgetMACKeysForOurKey", "(*macKeyHistory).forgetMACKeysForTheirKey")
+	a.WhoMayWriteDirect("W.mac-history", a.MustField("macKeyHistory", "items"), "(*macKeyHistory).addKeys", "(*macKeyHistory).deleteKeysAt", "(*macKeyHistory).wipe")
+	// MAC key bytes are zeroed only by the wipes of their containers (the recorded key shares its backing array with
+	// the freshly computed session keys, so zeroing a computed key zeroes the record that is disclosed later)
+	a.WhoMayCall("W.mac-wipe", a.MustFn("(*macKey).wipe"), "(*keyManagementContext).wipe", "(*macKeyUsage).wipe", "(*akeKeys).wipe")
+	a.WhoMayCall("W.mac-wipe", a.MustFn("(*macKeyUsage).wipe"), "(*macKeyHistory).wipe")
+	a.WhoMayCall("W.mac-wipe", a.MustFn("(*macKeyHistory).wipe"), "(*keyManagementContext).wipe")
+	a.macKeyByteWipes("W.mac-wipe")
+	a.R.Floor("W.mac-history", 8)
+	a.R.Floor("W.mac-wipe", 3)
+}
+
+// macKeyByteWipes: direct zeroing (wipeBytes, clear-style helpers) of a value of type macKey or of a MAC key field of
+// the computed session keys happens nowhere but in (*macKey).wipe.
+func (a *An) macKeyByteWipes(rule string) {
+	R := a.R
+	for _, f := range a.C.FuncSeq {
+		if f.Blocks == nil {
+			continue
+		}
+		fn := a.C.Name(f)
+		for _, b := range f.Blocks {
+			for _, in := range b.Instrs {
+				call, ok := in.(ssa.CallInstruction)
+				if !ok {
+					continue
+				}
+				isWipe := false
+				for _, g := range a.C.Callees(call) {
+					if wipePrims[a.C.Name(a.C.unwrap(g))] {
+						isWipe = true
+					}
+				}
+				if !isWipe || len(call.Common().Args) == 0 {
+					continue
+				}
+				arg := call.Common().Args[0]
+				// look through the conversion []byte(macKey)
+				for {
+					if cv, isC := arg.(*ssa.ChangeType); isC {
+						arg = cv.X
+						continue
+					}
+					if cv, isC := arg.(*ssa.Convert); isC {
+						arg = cv.X
+						continue
+					}
+					break
+				}
+				t := arg.Type().String()
+				term := a.C.Term(arg)
+				if !strings.HasSuffix(t, ".macKey") && !strings.Contains(term, "MACKey") && !strings.Contains(term, "receivingKey") {
+					continue
+				}
+				R.Check(fn == "(*macKey).wipe", rule, "bytes|"+fn, "MAC key bytes are zeroed only by (*macKey).wipe", a.C.InstrPos(in), fn+" zeroes "+term)
+			}
+		}
+	}
 }
 
 // retireOrder: on both axes the generation (current-1) is retired before the id moves on, under the right guard.
